@@ -203,6 +203,33 @@ func c15(p *P) {
 		r.Check(ok, "C15.R4", "getPowerTableCIDForTipset: CID of EC's power table at that tipset, cached under that tipset's key", p.c.Pos(pc.Pos()), "Get(string(tsk)) | MakePowerTableCID(ec.GetPowerTable(tsk)) → Add(string(tsk), cid)", "lookup, computation and cache no longer use the same tipset key")
 	}
 
+	// per-tipset power tables are memoised in two places; a failed or partial lookup must never be remembered
+	// (a poisoned entry would make later proposals carry the CID of an empty/other table)
+	if pc := p.fn("C15.R4", "f3.gpbftInputs.getPowerTableCIDForTipset"); pc != nil {
+		adds := callSinks(pc, "CID remembered", lruPkg+"Add")
+		if len(adds) > 0 {
+			p.guarded("C15.R4", pc, adds, errFails("EC power table obtained", "iface:Backend.GetPowerTable", ""), errFails("CID computed", "certs.MakePowerTableCID", ""))
+			p.guardedAfter("C15.R4", pc, okReturns(pc), errFails("EC power table obtained", "iface:Backend.GetPowerTable", ""), errFails("CID computed", "certs.MakePowerTableCID", ""))
+		}
+	}
+	if ex := p.fn("C15.R4", "ec.PowerCachingECWrapper.executeGetPowerTable"); ex != nil {
+		adds := callSinks(ex, "power table remembered", lruPkg+"Add")
+		if len(adds) == 0 {
+			r.Undecided("C15.R4", "PowerCachingECWrapper: cache insertion", "no cache insertion found")
+		} else {
+			p.guarded("C15.R4", ex, adds, errFails("backend lookup succeeded", "iface:Backend.GetPowerTable", ""))
+			p.guardedAfter("C15.R4", ex, okReturns(ex), errFails("backend lookup succeeded", "iface:Backend.GetPowerTable", ""))
+			for _, cs := range callsTo(ex, false, lruPkg+"Add") {
+				r.Check(cs.Arg(1) == "string($2)" && cs.Arg(2) == "iface:Backend.GetPowerTable($0.Backend, $1, $2)#0", "C15.R4", "PowerCachingECWrapper: remembers the backend's table under the requested tipset key", p.c.InstrPos(cs.Instr), cs.Arg(1)+" ↦ "+cs.Arg(2), "cache entry "+cs.Arg(1)+" ↦ "+cs.Arg(2))
+			}
+		}
+	}
+	if gp := p.fn("C15.R4", "ec.PowerCachingECWrapper.GetPowerTable"); gp != nil {
+		for _, cs := range callsTo(gp, false, lruPkg+"Get") {
+			r.Check(cs.Arg(1) == "string($2)", "C15.R4", "PowerCachingECWrapper.GetPowerTable: cache consulted under the requested tipset key", p.c.InstrPos(cs.Instr), cs.Arg(1), "cache consulted under "+cs.Arg(1))
+		}
+	}
+
 	// ---- R2
 	if cc := p.fn("C15.R2", "f3.gpbftInputs.collectChain"); cc != nil {
 		okSrc := true
